@@ -188,7 +188,7 @@ func (c *srv_scriptConn) ReadFrom(b []byte) (int, net.Addr, error) {
 		case c.closeReq <- struct{}{}:
 		default:
 		}
-		t := time.NewTimer(2 * time.Second)
+		t := time.NewTimer(10 * time.Second)
 		select {
 		case <-c.closeCh:
 		case <-t.C:
@@ -402,7 +402,7 @@ func runScenario(v6 bool, wait int, evs []srvEvent) *scenarioResult {
 		r.err = serve()
 	}()
 
-	t := time.NewTimer(5 * time.Second)
+	t := time.NewTimer(20 * time.Second)
 	select {
 	case r := <-done:
 		sc.mu.Lock()
@@ -435,7 +435,7 @@ func runScenario(v6 bool, wait int, evs []srvEvent) *scenarioResult {
 	// goroutine that has not started yet is invisible to the counters, so the goroutine
 	// dump is consulted ("created by …(*Server).Serve"); NumGoroutine is not used because
 	// unrelated harness goroutines come and go.
-	deadline := time.Now().Add(2 * time.Second)
+	deadline := time.Now().Add(10 * time.Second)
 	for spins := 0; ; spins++ {
 		mu.Lock()
 		quiet := started == finishedH
